@@ -28,7 +28,8 @@ from pathlib import Path
 REPO = Path(os.environ.get("VERIF_REPO", "/repo"))
 FLAG = {"GOOD": ".good", "UNKNOWN": ".unknown", "SUSPECT": ".suspect", "FAIL": ".fail", "MISSING": ".missing"}
 FUNCS = {"gross_range_test": "ioos_qc/qartod.py", "spike_test": "ioos_qc/qartod.py", "rate_of_change_test": "ioos_qc/qartod.py",
-         "location_test": "ioos_qc/qartod.py"}
+         "location_test": "ioos_qc/qartod.py", "density_inversion_test": "ioos_qc/qartod.py",
+         "speed_test": "ioos_qc/argo.py", "pressure_increasing_test": "ioos_qc/argo.py", "valid_range_test": "ioos_qc/axds.py"}
 
 
 class Untranslatable(Exception):
@@ -45,6 +46,8 @@ def is_call(node, dotted):
 
 
 NORMALISE = "np.ma.masked_invalid(np.ma.array({0}).astype(np.float64).filled(np.nan))"
+NORMALISE_FILLED = "np.ma.filled(np.ma.masked_invalid(np.ma.array({0}).astype(np.float64)), np.nan)"      # a PLAIN array, NaN at missing values
+NORMALISE_JUNK = "np.ma.masked_invalid(np.ma.array({0}, dtype=dtype))"                                    # raw data under the mask kept
 
 
 class Tr:
@@ -59,8 +62,12 @@ class Tr:
 
     # ---- types of the parameters --------------------------------------------------------------------------------------
     def param_type(self, p):
-        if p in ("inp", "lon", "lat"):
+        if p in ("inp", "lon", "lat", "zinp"):
             t = "List V"
+        elif p == "valid_span":
+            return "V × V"
+        elif p in ("start_inclusive", "end_inclusive"):
+            return "Bool"
         elif p == "bbox":
             return "SeqArg"
         elif p == "range_max":
@@ -88,6 +95,8 @@ class Tr:
             return f"{e.value.id}.{e.attr}"
         if isinstance(e, ast.Constant) and isinstance(e.value, int) and not isinstance(e.value, bool):
             return str(e.value)
+        if isinstance(e, ast.Subscript) and src(e) in getattr(self, "bound_elems", {}):
+            return self.bound_elems[src(e)]
         raise Untranslatable(f"scalar {src(e)}")
 
     def slice_of(self, e):
@@ -125,6 +134,8 @@ class Tr:
                 return f"maBin {op} {self.atom(e.left)} {self.atom(e.right)}"
         if is_call(e, "np.abs") and len(e.args) == 1:
             return f"uf1 Fl.abs {self.atom(e.args[0])}"
+        if is_call(e, "np.sign") and len(e.args) == 1:
+            return f"uf1 Fl.sign {self.atom(e.args[0])}"
         if is_call(e, "np.minimum") and len(e.args) == 2:
             return f"uf2 Fl.min {self.atom(e.args[0])} {self.atom(e.args[1])}"
         if (is_call(e, "np.ma.diff") or is_call(e, "np.diff")) and len(e.args) == 1 and not e.keywords:
@@ -141,7 +152,10 @@ class Tr:
 
     def bexpr(self, e):
         if isinstance(e, ast.Compare) and len(e.ops) == 1:
-            op = {ast.Lt: "ltS", ast.Gt: "gtS", ast.GtE: "geS"}.get(type(e.ops[0]))
+            if isinstance(e.ops[0], ast.Eq) and isinstance(e.left, ast.Name) and self.kind.get(e.left.id) == "barr" \
+                    and isinstance(e.comparators[0], ast.Constant) and e.comparators[0].value is True:
+                return f"eqTrue {e.left.id}"
+            op = {ast.Lt: "ltS", ast.Gt: "gtS", ast.GtE: "geS", ast.LtE: "leS"}.get(type(e.ops[0]))
             if op:
                 return f"{op} {self.atom(e.left)} {self.scalar(e.comparators[0])}"
         if isinstance(e, ast.BinOp) and isinstance(e.op, ast.BitOr):
@@ -207,6 +221,10 @@ class Tr:
             if is_call(v, f"{src(v.func.value) if isinstance(v, ast.Call) and isinstance(v.func, ast.Attribute) else ''}.reshape") \
                     and src(v.args[0]) == "original_shape" and isinstance(v.func.value, ast.Name):
                 return self.emit(ind, f"return {v.func.value.id}")
+            if isinstance(v, ast.Name) and self.kind.get(v.id) == "flags":
+                return self.emit(ind, f"return {v.id}")
+            if src(v) == "np.ma.masked_array([])":
+                return self.emit(ind, "return []")
             raise Untranslatable(f"return {src(v)}")
         if isinstance(st, ast.If):
             return self.if_stmt(st, ind)
@@ -217,10 +235,44 @@ class Tr:
     def assign(self, tgt, val, ind):  # noqa: C901, PLR0912
         if isinstance(tgt, ast.Name):
             name = tgt.id
-            if name == "original_shape" and src(val).endswith(".shape"):
+            if name == "original_shape" and (src(val).endswith(".shape") or is_call(val, "np.shape")):
                 return
             if name == "msg" or is_call(val, "namedtuple"):
                 return
+            if name == "tinp" and src(val) == "mapdates(tinp)":
+                return
+            if name == "span_dtype" or (name == "valid_span" and src(val) == "np.ma.masked_invalid(np.array(valid_span, dtype=span_dtype))"):
+                return          # the span is a pair of possibly-missing bounds on the logical domain
+            if src(val) == NORMALISE_FILLED.format(name):
+                return self.bind(ind, name, f"ofInputFilled {name}", "farr")
+            if src(val) == NORMALISE_JUNK.format(name):
+                self.uses_junk = True
+                return self.bind(ind, name, f"ofInputJunk {name} junk", "marr")
+            if src(val) in ("QartodFlags.GOOD * np.ma.ones({0}.size, dtype='uint8')".format(x) for x in self.kind if self.kind[x] == "marr"):
+                return self.bind(ind, name, f"ones {src(val.right.args[0])[:-5]}.length", "flags")
+            if src(val) in ("np.ones_like({0}, dtype='uint8') * QartodFlags.GOOD".format(x) for x in self.kind if self.kind[x] == "farr"):
+                return self.bind(ind, name, f"ones {src(val.left.args[0])}.length", "flags")
+            if isinstance(val, ast.Compare):
+                return self.bind(ind, name, self.bexpr(val), "barr")
+            if isinstance(val, ast.BinOp) and isinstance(val.op, ast.BitOr) and self.is_mask(val.left) and self.is_mask(val.right):
+                return self.bind(ind, name, f"bor2 (maskOf {val.left.value.id}) (maskOf {val.right.value.id})", "bools")
+            if is_call(val, "np.diff") and len(val.args) == 1 and not val.keywords and isinstance(val.args[0], ast.Name) \
+                    and self.kind.get(val.args[0].id) == "farr":
+                return self.bind(ind, name, f"npDiff {val.args[0].id}", "farr")
+            if is_call(val, "np.sign") and len(val.args) == 1 and is_call(val.args[0], "np.mean") and len(val.args[0].args) == 1 \
+                    and isinstance(val.args[0].args[0], ast.Name) and self.kind.get(val.args[0].args[0].id) == "farr":
+                return self.bind(ind, name, f"Fl.sign (npMean {val.args[0].args[0].id})", "fl")
+            if isinstance(val, ast.BinOp) and isinstance(val.op, ast.Mult) and isinstance(val.left, ast.Name) and isinstance(val.right, ast.Name) \
+                    and self.kind.get(val.left.id) == "fl" and self.kind.get(val.right.id) == "farr":
+                return self.bind(ind, name, f"npMulS {val.left.id} {val.right.id}", "farr")
+            # np.where(a <= 0)[0] + 1
+            if isinstance(val, ast.BinOp) and isinstance(val.op, ast.Add) and isinstance(val.right, ast.Constant) and val.right.value == 1 \
+                    and isinstance(val.left, ast.Subscript) and src(val.left.slice) == "0" and is_call(val.left.value, "np.where") \
+                    and len(val.left.value.args) == 1 and isinstance(val.left.value.args[0], ast.Compare):
+                c = val.left.value.args[0]
+                if isinstance(c.ops[0], ast.LtE) and isinstance(c.left, ast.Name) and self.kind.get(c.left.id) == "farr" and src(c.comparators[0]) == "0":
+                    return self.bind(ind, name, f"(npWhere (npLeS {c.left.id} 0)).map (· + 1)", "idx")
+                raise Untranslatable(f"np.where {src(val)}")
             if name == "bbox" and is_call(val, "bboxnt") and len(val.args) == 1 and isinstance(val.args[0], ast.Starred) \
                     and src(val.args[0].value) == "bbox":
                 self.kind["bbox"] = "box"
@@ -257,6 +309,10 @@ class Tr:
                     return self.emit(ind, f"{a} := setWhere {a} (maskOf {sl.value.id}) {f}")
                 if isinstance(sl, ast.Name) and self.kind.get(sl.id) == "bools":
                     return self.emit(ind, f"{a} := setWhere {a} {sl.id} {f}")
+                if isinstance(sl, ast.Name) and self.kind.get(sl.id) == "idx":
+                    return self.emit(ind, f"{a} := setIdx {a} {sl.id} {f}")
+                if isinstance(sl, ast.Constant) and sl.value == 0 and not isinstance(sl.value, bool):
+                    return self.emit(ind, f"{a} ← setAt0 {a} {f}")
                 if isinstance(sl, ast.Slice):
                     lo = None if sl.lower is None else src(sl.lower)
                     hi = None if sl.upper is None else src(sl.upper)
@@ -274,6 +330,15 @@ class Tr:
                 if (lo, hi) == ("1", None):
                     return self.emit(ind, f"{a} := setTail {a} {self.atom(val)}")
                 raise Untranslatable(f"array slice {src(tgt)}")
+        # flag_arr[:-1][cond] = X / flag_arr[1:][cond] = X : writes through a view of the flag array
+        if isinstance(tgt, ast.Subscript) and isinstance(tgt.value, ast.Subscript) and isinstance(tgt.value.value, ast.Name) \
+                and self.kind.get(tgt.value.value.id) == "flags" and self.slice_of(tgt.value) in ("init1", "tail1"):
+            a, view, f = tgt.value.value.id, self.slice_of(tgt.value), self.flag(val)
+            back = {"init1": "setInit1", "tail1": "setTail"}[view]
+            c = tgt.slice
+            if self.slice_of(c) in ("init1", "tail1") and isinstance(c.value, ast.Name) and self.kind.get(c.value.id) == "bools":
+                return self.emit(ind, f"{a} := {back} {a} (setWhere ({view} {a}) ({self.slice_of(c)} {c.value.id}) {f})")
+            return self.emit(ind, f"{a} := {back} {a} (setWhereB ({view} {a}) ({self.bexpr(c)}) {f})")
         # diff[1:-1][cond] = 0 : a write through a view
         if isinstance(tgt, ast.Subscript) and isinstance(tgt.value, ast.Subscript) and isinstance(tgt.value.value, ast.Name) \
                 and self.kind.get(tgt.value.value.id) == "marr" and self.slice_of(tgt.value) == "inner" \
@@ -282,8 +347,60 @@ class Tr:
             return self.emit(ind, f"{a} := setInner {a} (setZeroWhereB (tail1 (init1 {a})) ({self.bexpr(tgt.slice)}))")
         raise Untranslatable(f"assignment {src(tgt)} = {src(val)[:60]}")
 
-    def if_stmt(self, st, ind):
+    def if_stmt(self, st, ind):  # noqa: C901, PLR0911, PLR0912
         t = st.test
+        # --- valid_range_test: the dtype of the carrier.  `if dtype is None and hasattr(...): dtype = ... elif ...: dtype = ...` only
+        # determines `dtype`; `if dtype is None: <guess the type> else: <body>` — the model's carriers have a dtype: the else branch.
+        if src(t).startswith("dtype is None and hasattr("):
+            node, ok = st, True
+            while True:
+                ok = ok and all(isinstance(b, ast.Assign) and src(b.targets[0]) == "dtype" for b in node.body)
+                if len(node.orelse) == 1 and isinstance(node.orelse[0], ast.If) and src(node.orelse[0].test).startswith("dtype is None and hasattr("):
+                    node = node.orelse[0]
+                else:
+                    ok = ok and not node.orelse
+                    break
+            if ok:
+                return None
+            raise Untranslatable("dtype determination")
+        if src(t) == "dtype is None" and st.orelse:
+            return self.block(st.orelse, ind)
+        # if a.size == 0: / if a.size < 2:
+        if isinstance(t, ast.Compare) and len(t.ops) == 1 and type(t.ops[0]) in (ast.Eq, ast.Lt) and src(t.left).endswith(".size") \
+                and isinstance(t.comparators[0], ast.Constant) and isinstance(t.comparators[0].value, int) and not st.orelse:
+            self.emit(ind, f"if {src(t.left)[:-5]}.length {'==' if isinstance(t.ops[0], ast.Eq) else '<'} {t.comparators[0].value} then")
+            return self.block(st.body, ind + 1)
+        # if any(c):
+        if is_call(t, "any") and len(t.args) == 1 and isinstance(t.args[0], ast.Name) and self.kind.get(t.args[0].id) == "barr" and not st.orelse:
+            self.emit(ind, f"if anyB {t.args[0].id} then")
+            return self.block(st.body, ind + 1)
+        # if sign < 0:  (a float scalar)
+        if isinstance(t, ast.Compare) and len(t.ops) == 1 and isinstance(t.ops[0], ast.Lt) and isinstance(t.left, ast.Name) \
+                and self.kind.get(t.left.id) == "fl" and src(t.comparators[0]) == "0" and not st.orelse:
+            self.emit(ind, f"if {t.left.id}.ltS 0 then")
+            return self.block(st.body, ind + 1)
+        # if not isnan(valid_span[k]):
+        if isinstance(t, ast.UnaryOp) and isinstance(t.op, ast.Not) and is_call(t.operand, "isnan") and len(t.operand.args) == 1 and not st.orelse:
+            e = t.operand.args[0]
+            if isinstance(e, ast.Subscript) and src(e.value) == "valid_span" and src(e.slice) in ("0", "1"):
+                k = src(e.slice)
+                self.bound_elems = {**getattr(self, "bound_elems", {}), src(e): f"valid_span_{k}"}
+                self.emit(ind, f"if let some valid_span_{k} := valid_span.{int(k) + 1} then")
+                return self.block(st.body, ind + 1)
+            raise Untranslatable(f"if {src(t)}")
+        # if flag is True: ... else: ...
+        if isinstance(t, ast.Compare) and len(t.ops) == 1 and isinstance(t.ops[0], ast.Is) and isinstance(t.left, ast.Name) \
+                and t.left.id in ("start_inclusive", "end_inclusive") and src(t.comparators[0]) == "True" and st.orelse:
+            self.emit(ind, f"if {t.left.id} = true then")
+            self.block(st.body, ind + 1)
+            self.emit(ind, "else")
+            return self.block(st.orelse, ind + 1)
+        # if a.shape != b.shape or a.shape != c.shape: raise
+        if isinstance(t, ast.BoolOp) and isinstance(t.op, ast.Or) and not st.orelse and all(
+                isinstance(c, ast.Compare) and len(c.ops) == 1 and isinstance(c.ops[0], ast.NotEq) and src(c.left).endswith(".shape")
+                and src(c.comparators[0]).endswith(".shape") for c in t.values):
+            self.emit(ind, "if " + " || ".join(f"{src(c.left)[:-6]}.length != {src(c.comparators[0])[:-6]}.length" for c in t.values) + " then")
+            return self.block(st.body, ind + 1)
         # if x is not None:
         if isinstance(t, ast.Compare) and isinstance(t.ops[0], ast.IsNot) and isinstance(t.left, ast.Name) and src(t.comparators[0]) == "None" \
                 and t.left.id in self.optional and not st.orelse:
@@ -357,8 +474,10 @@ class Tr:
 
     def run(self):
         self.uses_hops = False
+        self.uses_junk = False
         self.block(self.fn.body, 1)
-        sig = " ".join(f"({p} : {self.param_type(p)})" for p in self.params) + (" (hops : List V)" if self.uses_hops else "")
+        sig = " ".join(f"({p} : {self.param_type(p)})" for p in self.params if p != "dtype") + (" (hops : List V)" if self.uses_hops else "") \
+            + (" (junk : List Fl)" if self.uses_junk else "")
         head = f"def {self.fn.name} {sig} : Res := do"
         return head + "\n" + "\n".join(self.lines) + "\n"
 
